@@ -141,7 +141,13 @@ let run_ana (op : string) (args : sexp list) : string =
                 "ok " ^ String.concat " " (List.map (fun e ->
                   let n = (match fold_num e with Ok x -> "ok:" ^ atom_of_f64 x | Err x -> "err:" ^ fold_err_name x | _ -> "crash") in
                   let s = (match fold_str e with Ok x -> "ok:" ^ atom_of_str x | Err x -> "err:" ^ fold_err_name x | _ -> "crash") in
-                  "(" ^ n ^ " " ^ s ^ ")") outs)
+                  "(" ^ n ^ " " ^ s ^ ")") outs
+                  @ List.concat_map (fun b -> match b with
+                      | BNonEmpty ss -> List.filter_map (fun s -> match s with
+                          | SPoeticNum (_, PNLit el) | SPush (_, Some (PushLit el)) ->
+                              Some ("(poetic ok:" ^ atom_of_f64 (compute_value el) ^ " err:WrongType)")
+                          | _ -> None) ss
+                      | BEmpty _ -> []) p)
             | "lint", [] ->
                 (match lint p with
                  | Ok ds ->
